@@ -359,19 +359,20 @@ class Walker:
             real = g.lookup(loose, packed)
             dst = g.lookup(g.loose[dst], g.packed[dst])        # directories mean nothing here
         want_eff, got_eff = eff(g.loose[dst], g.packed[dst]), eff(loose, packed)
+        pre_eff = eff(pre_l, pre_p)
         fs = be.fs_diagnosis(prev_scan, lab["tgt"]) if (self.kind == "disk" and lab["tgt"]) else "-"
         case = call_case(lab, pre_l, pre_p, fs, g.obs[cur])
         site = f"{be.site}.{METHOD[lab['op']]}"
         bad = False
         if not result_matches(lab["res"], got, is_oserr, form):
             bad = True
-            self.report(site, "result", f"{case} want={lab['res']} got={got} state={diff_desc(lab, want_eff, got_eff)}",
+            self.report(site, "result", f"{case} want={lab['res']} got={got} change={diff_desc(lab, pre_eff, got_eff)}",
                         f"{call_str(lab)} returned {got}, the contract says {lab['res']}", hist, be,
                         {"expected_state": _ser(want_eff), "real_state": _ser(got_eff)})
         if got_eff != want_eff and not bad:
             bad = True
             clause = "pack-visible" if lab["op"] == "PackRefs" else ("reopen-visible" if lab["op"] == "Reopen" else "state")
-            self.report(site, clause, f"{case} result={got} state={diff_desc(lab, want_eff, got_eff)}",
+            self.report(site, clause, f"{case} result={got} change={diff_desc(lab, pre_eff, got_eff)}",
                         f"after {call_str(lab)} -> {got} the refs differ from the contract: {diff_desc(lab, want_eff, got_eff)}",
                         hist, be, {"expected_state": _ser(want_eff), "real_state": _ser(got_eff)})
         if not bad and real != dst:
@@ -417,11 +418,11 @@ class Walker:
                             f"get_peeled({'/'.join(n)}) gives {p} for a ref that does not resolve", hist, be, {})
         want_dict = {n: v for n, v in obs.items() if v in self.objs.ids}
         if api["as_dict"] != want_dict:
-            self.report(f"{site}.as_dict", "read", f"state={feats} got={_dictdiff(want_dict, api['as_dict'])}",
+            self.report(f"{site}.as_dict", "read", f"state={feats} got={_got(api['as_dict'])}",
                         f"as_dict() gives {_ser(api['as_dict'])}, the contract says {_ser(want_dict)}", hist, be, {})
         want_sym = {n: x[1] for n, x in e.items() if x[0] == "sym"}
         if api["symrefs"] != want_sym:
-            self.report(f"{site}.get_symrefs", "read", f"state={feats} got={_dictdiff(want_sym, api['symrefs'])}",
+            self.report(f"{site}.get_symrefs", "read", f"state={feats} got={_got(api['symrefs'])}",
                         f"get_symrefs() gives {_ser(api['symrefs'])}, the contract says {_ser(want_sym)}", hist, be, {})
         if self.kind != "disk":
             return
@@ -443,43 +444,8 @@ class Walker:
             return
         self.api_memo.add((node, fp))
         view = self.git.view(sc, fp)
-        site = be.site
-        want = {}
-        for n, v in obs.items():
-            if v in self.objs.ids and (n != HEAD or view["head_ok"]):
-                want["/".join(n)] = v
-                if self.objs.peel[v] != v:
-                    want["/".join(n) + "^{}"] = self.objs.peel[v]
-        if view["err"]:
-            self.report(f"{site}", "git-view", f"git-error state={state_features(loose, packed, obs)}",
-                        f"git fails on the directory: {view['err']}", hist, be, {"git": view})
-        if view["refs"] != want:
-            for k in sorted(set(want) | set(view["refs"])):
-                w, r = want.get(k), view["refs"].get(k)
-                if w != r:
-                    base = tuple(k[:-3].split("/")) if k.endswith("^{}") else tuple(k.split("/"))
-                    self.report(f"{site}", "git-view",
-                                f"show-ref {'peeled-line' if k.endswith('^{}') else 'ref'} name={placement(loose, packed, base)}"
-                                f"{' tag-namespace' if base[:2] == ('refs', 'tags') else ''} want={_pres(w)} got={_pres(r)}",
-                                f"git show-ref -d lists {k} as {r}, the contract says {w}", hist, be, {"git": view})
-        want_fer = {k: v for k, v in want.items() if k.startswith("refs/") and not k.endswith("^{}")}
-        if view["for_each_ref"] != want_fer:
-            self.report(f"{site}", "git-view", f"for-each-ref state={state_features(loose, packed, obs)} "
-                        f"got={_dictdiff(want_fer, view['for_each_ref'])}",
-                        f"git for-each-ref lists {view['for_each_ref']}, the contract says {want_fer}", hist, be, {"git": view})
-        e = eff(loose, packed)
-        for k in want_fer:
-            n = tuple(k.split("/"))
-            ws = "/".join(e[n][1]) if e[n][0] == "sym" else ""
-            if view["symref"].get(k, "") != ws:
-                self.report(f"{site}", "git-view", f"symref name={placement(loose, packed, n)} want={'sym' if ws else 'direct'}",
-                            f"git for-each-ref %(symref) of {k} is {view['symref'].get(k)!r}, the contract says {ws!r}",
-                            hist, be, {"git": view})
-        if view["head_ok"]:
-            ws = "/".join(e[HEAD][1]) if e.get(HEAD, ABSENT)[0] == "sym" else None
-            if view["head_sym"] != ws:
-                self.report(f"{site}", "git-view", f"symbolic-ref HEAD want={'sym' if ws else 'direct'}",
-                            f"git symbolic-ref HEAD gives {view['head_sym']!r}, the contract says {ws!r}", hist, be, {"git": view})
+        for clause, case, what in git_diffs(self.objs, view, obs, loose, packed):
+            self.report(be.site, "git-view", f"{clause} {case}", what, hist, be, {"git": view})
 
     def report(self, site, clause, case, what, hist, be, extra):
         sig = f"{site}|{clause}|{case}"
@@ -489,12 +455,60 @@ class Walker:
         self.findings.append(Finding(sig, what, obj))
 
 
+def git_diffs(objs, view, obs, loose, packed):
+    """Differences between C git's listing of the directory and what the state (obs = refs[n] for
+    every name, loose/packed placement) says it should list: [(clause, case, what)] with the clause
+    names of RefMapTrace (git-refs, git-peeled, git-symref, git-head)."""
+    out = []
+    feats = state_features(loose, packed, obs)
+    if view["err"]:
+        out.append(("git-refs", f"git-error state={feats}", f"git fails on the directory: {view['err']}"))
+    want = {}
+    for n, v in obs.items():
+        if v in objs.ids and (n != HEAD or view["head_ok"]):
+            want["/".join(n)] = v
+            if objs.peel[v] != v:
+                want["/".join(n) + "^{}"] = objs.peel[v]
+    for k in sorted(set(want) | set(view["refs"])):
+        w, r = want.get(k), view["refs"].get(k)
+        if w != r:
+            pl = k.endswith("^{}")
+            base = tuple(k[:-3].split("/")) if pl else tuple(k.split("/"))
+            out.append(("git-peeled" if pl else "git-refs",
+                        f"show-ref name={placement(loose, packed, base)}"
+                        f"{' tag-namespace' if base[:2] == ('refs', 'tags') else ''} want={_pres(w)} got={_pres(r)}"
+                        f"{'' if (w is None or r is None) else '(other)'}",
+                        f"git show-ref -d lists {k} as {r}, the contract says {w}"))
+    want_fer = {k: v for k, v in want.items() if k.startswith("refs/") and not k.endswith("^{}")}
+    if view["for_each_ref"] != want_fer:
+        out.append(("git-refs", f"for-each-ref state={feats} got={_dictdiff(want_fer, view['for_each_ref'])}",
+                    f"git for-each-ref lists {view['for_each_ref']}, the contract says {want_fer}"))
+    e = eff(loose, packed)
+    for k in want_fer:
+        # %(symref) names the end of the chain; here only: does git see a symbolic ref at all
+        # (RefMapTrace compares the name)
+        n = tuple(k.split("/"))
+        if bool(view["symref"].get(k, "")) != (e[n][0] == "sym"):
+            out.append(("git-symref", f"name={placement(loose, packed, n)} want={'sym' if e[n][0] == 'sym' else 'direct'}",
+                        f"git for-each-ref %(symref) of {k} is {view['symref'].get(k)!r}, the ref is {e[n]}"))
+    if view["head_ok"]:
+        ws = "/".join(e[HEAD][1]) if e.get(HEAD, ABSENT)[0] == "sym" else None
+        if view["head_sym"] != ws:
+            out.append(("git-head", f"symbolic-ref HEAD want={'sym' if ws else 'none'}",
+                        f"git symbolic-ref HEAD gives {view['head_sym']!r}, the contract says {ws!r}"))
+    return out
+
+
 def _cls(v):
     if v is None:
         return "None"
     if isinstance(v, str) and (v.startswith("v") or v.startswith("?")):
         return "id"
     return str(v)
+
+
+def _got(v):
+    return v if isinstance(v, str) else "wrong-content"
 
 
 def _pres(v):
